@@ -54,6 +54,11 @@ FLAG = "checkerlang_secure_mode"
 MODDIR = os.path.realpath(os.path.join(REPO, "src", "ckl", "modules"))
 SRCDIR = os.path.realpath(os.path.join(REPO, "src"))
 NWORKERS = min(16, os.cpu_count() or 4)
+# Wall-clock guards.  None of them produces a verdict: a call that does not
+# come back in time is recorded as drift (termination is not this property).
+BOOT_LIMIT = 300.0
+ACT_LIMIT = 120.0
+CALL_LIMIT = 2.0
 
 # --------------------------------------------------------------------------
 # Python mirror of SecureOps!PermittedOs.  Used only to *classify* natives as
@@ -291,6 +296,11 @@ def worker_init(root):
     sys.stdin = open(os.devnull)
     sys.stdout = open(os.devnull, "w")
     signal.signal(signal.SIGALRM, _alarm)
+    try:
+        import resource
+        resource.setrlimit(resource.RLIMIT_AS, (8 << 30, 8 << 30))
+    except (ImportError, ValueError, OSError):
+        pass
     install_recorder()
 
 
@@ -737,7 +747,7 @@ def run_action(it, act, data, k):
     if um is not None:
         with open(os.path.join(CTX.mods, f"um{k}.ckl"), "w") as f:
             f.write(um + "\n")
-    out, evs = recorded(lambda: it.interpret(prog, "c09"))
+    out, evs = recorded(lambda: it.interpret(prog, "c09"), limit=ACT_LIMIT)
     return out, evs, desc
 
 
@@ -754,7 +764,7 @@ def task_edges(args):
 
         def boot():
             holder["it"] = make_interp(sec, leg)
-        out, evs = recorded(boot, req=True)
+        out, evs = recorded(boot, limit=BOOT_LIMIT, req=True)
         if out[0] != "val":
             res["boot_failed"] = out[1] or out[0]
             results.append(res)
@@ -847,7 +857,7 @@ def task_calls(args):
 
     def boot():
         holder["it"] = make_interp(True, leg)
-    out, evs = recorded(boot, req=True)
+    out, evs = recorded(boot, limit=BOOT_LIMIT, req=True)
     if out[0] != "val":
         res["boot_failed"] = out[1] or out[0]
         return res
@@ -857,7 +867,7 @@ def task_calls(args):
     res["items"].append({"event": ev, "desc": f"Interpreter(secure=True, legacy={leg})", "bad": det["bad"],
                          "case": {"kind": "call", "leg": leg, "setup": "", "src": ""}})
     if setup:
-        out, evs = recorded(lambda: it.interpret(setup, "c09"))
+        out, evs = recorded(lambda: it.interpret(setup, "c09"), limit=ACT_LIMIT)
         ev, det = observe(it, data, "act", evs)
         res["items"].append({"event": ev, "desc": setup, "bad": det["bad"],
                              "case": {"kind": "call", "leg": leg, "setup": setup, "src": ""}})
@@ -905,7 +915,7 @@ def task_calls(args):
 
             def call():
                 holder["r"] = it.interpret(src, "c09")
-            out, evs = recorded(call, limit=20.0)
+            out, evs = recorded(call, limit=CALL_LIMIT)
             res["ncalls"] += 1
             if out[0] == "timeout":
                 res["timeouts"] += 1
@@ -1127,7 +1137,17 @@ def run(run):
         shutil.rmtree(root, ignore_errors=True)
 
 
+def _t(msg, t0=[None]):
+    if os.environ.get("C09_DEBUG"):
+        import time
+        now = time.time()
+        if t0[0] is None:
+            t0[0] = now
+        print(f"[c09 {now - t0[0]:7.1f}s] {msg}", file=sys.stderr, flush=True)
+
+
 def _run(run, quick, root):
+    _t("start")
     data, side = extract(os.path.join(root, "x"), run.tier, run.seed)
     side["bootsym"] = pick_bootsym(side)
     info = side["info"]
@@ -1149,6 +1169,7 @@ def _run(run, quick, root):
     for e in side["table_errors"]:
         run.drift("module-table-extraction", e)
 
+    _t("extracted")
     # ---- TLC: the gate model over the extracted tables
     d = tempfile.mkdtemp(prefix="c09-data-")
     dpath = os.path.join(d, "data.json")
@@ -1198,6 +1219,7 @@ def _run(run, quick, root):
                          "hist": [act_str(side, a) for a in edges[-1]["hist"]],
                          "post_session": edges[-1]["post"]["session"][:3]}})
 
+    _t(f"model checked, {len(edges)} behaviours")
     # ---- replay on the code
     wdata = {"classmap": side["classmap"], "forbidden": side["forbidden"], "ids": side["ids"],
              "natives": data["natives"], "probe": side["probe"], "bootmod": side["bootmod"],
@@ -1222,8 +1244,10 @@ def _run(run, quick, root):
             except cf.process.BrokenProcessPool as e:
                 raise MachineryError("a worker process died: " + str(e))
         edge_results = [r for f in f_edges for r in get(f)]
+        _t("edges replayed")
         gate_results = get(f_gate)
         call_results = [get(f) for f in f_calls]
+        _t("calls done")
     finally:
         pool.close()
 
@@ -1279,7 +1303,9 @@ def _run(run, quick, root):
         j = next((i for i, m in enumerate(metas) if m[0].startswith("B:") and "(F" in m[0]), None)
         if j is not None:
             run.sample({"CALL": metas[j][1], "obs": events[j]})
+    _t(f"{len(events)} events collected")
     rejected = validate(run, events, metas, "Secure_Trace validation of observed secure interpreters")
+    _t("trace validated")
     for b in sorted(set(boot_failed)):
         run.drift("interpreter-cannot-be-constructed", b)
     secure_boot_failed = [b for b in boot_failed if b.startswith("secure=True")]
